@@ -4586,7 +4586,12 @@ def _parse_program(src: str) -> Program:
 
     # Text that is not Python is rejected up front (SyntaxError) instead of
     # having its unparseable lines silently ignored by the line-based passes.
-    tree = ast.parse(src)
+    try:
+        tree = ast.parse(src)
+    except MemoryError as exc:
+        # CPython reports "Parser stack overflowed - Python source too complex to
+        # parse" as a MemoryError; for the caller this is just unusable input.
+        raise ValueError("source is too complex to parse") from exc
 
     lines = src.splitlines()
 
